@@ -3,6 +3,9 @@ import ZapVerif.Proofs.Core
 import ZapVerif.Proofs.CoreTrace
 import ZapVerif.Gen.FrontEnds
 import ZapVerif.Model.Deliver
+import ZapVerif.Props.C10
+import ZapVerif.Model.TransCEAddX
+import ZapVerif.Proofs.TransLogger
 /-! # C06 — Panic and Fatal always terminate, after the entry is written and flushed
 
 The front ends, their levels and every guard between an exported method and `Logger.check` are the regenerated
@@ -196,5 +199,209 @@ theorem terminal_ignores_outcomes (en : Bool) (sinks : List Deliver.Sink) :
 
 example : Deliver.ceWrite (.tee [.io true [⟨0, true, false⟩], .io true [⟨1, false, false⟩]]) true =
     [.wrote 0, .wrote 1, .errLine, .term] := by decide
+
+end ZapVerif.C06
+
+/-! ## the terminal hook in `CheckedEntry.Write` IS the source (Go→GoMini translation, docs/TRANSLATOR.md)
+
+From `Gen/TransCE.lean` (the body of `(*CheckedEntry).Write` read from zapcore/entry.go on this run; main theorem
+`C10.CheckedEntry_Write_matches_source`): with a terminal hook set, `Write` makes exactly the calls it makes without
+one — every core written, the failure report — and then calls `hook.OnWrite` exactly once, immediately before the
+pool put, WHATEVER the cores returned.  This is the source-level content of `terminal_despite_sink_failures`
+(`C10.CheckedEntry_Write_is_ceWrite` reads the trace as `Deliver.ceWrite`). -/
+namespace ZapVerif.C06
+open ZapVerif.GoMini ZapVerif.TransCE
+
+theorem CheckedEntry_Write_hook_matches_source (cs : List (Nat × List Val)) (eo : List Val) (hook : Val)
+    (time entry self fs : Val) (ev : List Val) (fuel : Nat) :
+    ∃ pre : List Val,
+      run X (fuel + 1) "Write" [fs] (ceFld false false eo [hook] (cs.map coreOf) time entry self ev) =
+        .done [] (ceFld false true eo [hook] (cs.map coreOf) time entry self
+          (ev ++ pre ++ [evHook [hook] self fs, evPut self])) ∧
+      run X (fuel + 1) "Write" [fs] (ceFld false false eo [] (cs.map coreOf) time entry self ev) =
+        .done [] (ceFld false true eo [] (cs.map coreOf) time entry self (ev ++ pre ++ [evPut self])) ∧
+      (∀ e ∈ pre, e ≠ evHook [hook] self fs ∧ e ≠ evPut self) := by
+  refine ⟨cs.map (fun c => evCore (coreOf c) entry fs) ++
+    (if cs.flatMap (·.2) ≠ [] ∧ eo ≠ [] then [evErrLine eo time (cs.flatMap (·.2)), evErrSync eo] else []), ?_, ?_, ?_⟩
+  · rw [C10.CheckedEntry_Write_matches_source]; simp [expected, List.append_assoc]
+  · rw [C10.CheckedEntry_Write_matches_source]; simp [expected, List.append_assoc]
+  · intro e he
+    simp only [List.mem_append, List.mem_map] at he
+    rcases he with ⟨c, _, rfl⟩ | he
+    · simp [evCore, evHook, evPut, nm_coreWrite, nm_hook, nm_put]
+    · split at he
+      · simp only [List.mem_cons, List.not_mem_nil, or_false] at he
+        rcases he with rfl | rfl <;> simp [evErrLine, evErrSync, evHook, evPut, nm_fprintf, nm_sync, nm_hook, nm_put]
+      · cases he
+
+end ZapVerif.C06
+
+/-! ## `CheckedEntry.After` / `Should` ARE the source (table `Gen/TransCEAdd.lean`)
+
+`Logger.check` installs the terminal behaviour with `ce = ce.After(ent, hook)`: on a nil entry (no core accepted the
+level) a fresh entry is created — which is why Panic/Fatal terminate even when nothing is written — and in every case
+the hook is stored in `after`, the field `CheckedEntry.Write` reads (`CheckedEntry_Write_hook_matches_source`). -/
+namespace ZapVerif.C06
+set_option linter.unusedSimpArgs false
+open ZapVerif.GoMini
+
+theorem After_matches_source (isnil dirty : Bool) (eo after cores : List Val) (entry self ent : Val) (hook : List Val)
+    (fuel : Nat) :
+    run TransCEAdd.X (fuel + 1) "After" [ent, .list hook] (TransCEAdd.ceFld isnil dirty eo after cores entry self) =
+      .done [self] (if isnil then TransCEAdd.ceFld false false [] hook [] ent self
+                    else TransCEAdd.ceFld false dirty eo hook cores entry self) := by
+  refine run_of_fin TransCEAdd.X _ _ Gen.TransCEAdd.After [ent, .list hook] _ _ _ rfl rfl ?_
+  show (exec TransCEAdd.X (fuel + 1) Gen.TransCEAdd.After_body ⟨[("p0", ent), ("p1", .list hook)], _⟩).fin = _
+  rw [exec_succ]
+  cases isnil <;> simp [Gen.TransCEAdd.After_body, TransCEAdd.X]
+
+/-- `Should` (the deprecated spelling) is `After` -/
+theorem Should_matches_source (isnil dirty : Bool) (eo after cores : List Val) (entry self ent : Val) (hook : List Val)
+    (fuel : Nat) :
+    run TransCEAdd.X (fuel + 2) "Should" [ent, .list hook] (TransCEAdd.ceFld isnil dirty eo after cores entry self) =
+      .done [self] (if isnil then TransCEAdd.ceFld false false [] hook [] ent self
+                    else TransCEAdd.ceFld false dirty eo hook cores entry self) := by
+  refine run_of_fin TransCEAdd.X _ _ Gen.TransCEAdd.Should [ent, .list hook] _ _ _ rfl rfl ?_
+  show (exec TransCEAdd.X (fuel + 2) Gen.TransCEAdd.Should_body ⟨[("p0", ent), ("p1", .list hook)], _⟩).fin = _
+  rw [exec_succ]
+  have h : ∀ σ : State, retK σ [.loc "l0"] "After"
+      (exec TransCEAdd.X (fuel + 1) Gen.TransCEAdd.After_body
+        ⟨[("p0", ent), ("p1", .list hook)], TransCEAdd.ceFld isnil dirty eo after cores entry self⟩) =
+      .normal (({ σ with fld := (if isnil then TransCEAdd.ceFld false false [] hook [] ent self
+                    else TransCEAdd.ceFld false dirty eo hook cores entry self) } : State).assign1 (.loc "l0") self) := by
+    intro σ
+    refine retK_of_fin1 σ _ _ _ _ _ ?_
+    rw [exec_succ]
+    cases isnil <;> simp [Gen.TransCEAdd.After_body, TransCEAdd.X]
+  have hf : TransCEAdd.X.funs = Gen.TransCEAdd.funs := rfl
+  cases isnil <;> simp [Gen.TransCEAdd.Should_body, hf, h]
+
+end ZapVerif.C06
+
+/-! ## `terminalHookOverride` and `Logger.check` ARE the source (table `Gen/TransLogger.lean`)
+
+`Logger.check` is translated up to (and including) its early return for entries that no core writes; everything after
+`ce.ErrorOutput = log.errorOutput` (error output, caller and stack annotation) is the recorded intrinsic
+`Logger.annotate` (covered by C15).  For every level, core, development flag and `onPanic`/`onFatal` setting the
+interpreted function returns: nil when the level is below DPanic and the core disables it (the core is not even
+consulted); otherwise the core's `Check` result with the terminal hook of `TransLogger.terminal` installed by `After` —
+which by `terminal_is_model` is `Cores.Logger.terminal`: Panic ⇒ panic (or the override), Fatal ⇒ exit (or the
+override), DPanic ⇒ panic iff development, and a nil / no-op override never disarms it — even when no core accepted
+the entry (the result is then a CheckedEntry without cores that exists only to run the hook). -/
+namespace ZapVerif.C06
+set_option linter.unusedSimpArgs false
+open ZapVerif.GoMini ZapVerif.TransLogger ZapVerif.Gen.TransLogger
+
+/-- `terminalHookOverride(default, override)`: a nil or `WriteThenNoop` override yields the default -/
+theorem terminalHookOverride_matches_source (P : Par) (d o : List Val) (fld : Env) (fuel : Nat) :
+    run (X P) (fuel + 1) "terminalHookOverride" [.list d, .list o] fld = .done [.list (ovr d o)] fld := by
+  refine run_of_fin (X P) _ _ Gen.TransLogger.terminalHookOverride [.list d, .list o] _ _ _ rfl rfl ?_
+  show (exec (X P) (fuel + 1) terminalHookOverride_body ⟨[("p0", .list d), ("p1", .list o)], fld⟩).fin = _
+  rw [exec_succ]
+  cases o with
+  | nil => simp [terminalHookOverride_body, ovr]
+  | cons a r =>
+    have hpos : ¬ ((r.length : Int) + 1 = 0) := by omega
+    cases hb : Val.beqs (a :: r) [.int 0] <;> simp [terminalHookOverride_body, ovr, hpos, hb] <;> simp_all
+
+/-- what `Logger.check` returns and records -/
+def checkSpec (P : Par) (l : Int) (msg name : Bytes) (core clock : Val) (dev : Bool) (onPanic onFatal : List Val) :
+    Val × List Val :=
+  if l < 3 ∧ P.cen core l = false then (.list [], [])
+  else
+    let ent : Val := .list [.bytes name, P.now clock, .int l, .bytes msg]
+    let ce0 := (P.chk core ent).map fun cs => (cs, ([] : List Val))
+    let ce1 := match terminal l dev onPanic onFatal with
+      | none => ce0
+      | some h => after ce0 h
+    let evs := [Val.list [nm "Clock.Now", clock], Val.list [nm "Core.Check", core, ent, .list []]]
+    if ce0.isNone then (ceV ce1, evs)
+    else (P.ann (ceV ce1) ent, evs ++ [Val.list [nm "Logger.annotate", ceV ce1, ent]])
+
+theorem Logger_check_matches_source (P : Par) (l : Int) (msg name : Bytes) (core clock : Val) (dev : Bool)
+    (onPanic onFatal : List Val) (ev : List Val) (fuel : Nat) :
+    run (X P) (fuel + 2) "Logger_check" [.int l, .bytes msg] (logFld core name clock dev onPanic onFatal ev) =
+      .done [(checkSpec P l msg name core clock dev onPanic onFatal).1]
+        (logFld core name clock dev onPanic onFatal (ev ++ (checkSpec P l msg name core clock dev onPanic onFatal).2)) := by
+  refine run_of_fin (X P) _ _ Gen.TransLogger.Logger_check [.int l, .bytes msg] _ _ _ rfl rfl ?_
+  show (exec (X P) (fuel + 2) Logger_check_body ⟨[("p0", .int l), ("p1", .bytes msg)], _⟩).fin = _
+  rw [exec_succ]
+  have hovr : ∀ (σ : State) (lv : LV) (d o : List Val) (fl : Env), retK σ [lv] "terminalHookOverride"
+      (exec (X P) (fuel + 1) terminalHookOverride_body ⟨[("p0", .list d), ("p1", .list o)], fl⟩) =
+      .normal (({ σ with fld := fl } : State).assign1 lv (.list (ovr d o))) := by
+    intro σ lv d o fl
+    refine retK_of_fin1 σ _ _ _ _ _ ?_
+    rw [exec_succ]
+    cases o with
+    | nil => simp [terminalHookOverride_body, ovr]
+    | cons a r =>
+      have hpos : ¬ ((r.length : Int) + 1 = 0) := by omega
+      cases hb : Val.beqs (a :: r) [.int 0] <;> simp [terminalHookOverride_body, ovr, hpos, hb] <;> simp_all
+  by_cases hg : l < 3 ∧ P.cen core l = false
+  · simp [Logger_check_body, checkSpec, hg, hg.1, hg.2]
+  · have hpos : ∀ k : Nat, ¬ ((k : Int) + 1 = 0) := by intro k; omega
+    have hcond : (l < 3 → P.cen core l = true) := by
+      intro h; cases hc : P.cen core l
+      · exact absurd ⟨h, hc⟩ hg
+      · rfl
+    cases hchk : P.chk core (Val.list [.bytes name, P.now clock, .int l, .bytes msg]) with
+    | none =>
+      by_cases h4 : l = 4
+      · subst h4; simp [Logger_check_body, checkSpec, terminal, indexVal, hchk, hovr, after, nm_now, nm_chk]
+      · by_cases h5 : l = 5
+        · subst h5; simp [Logger_check_body, checkSpec, terminal, indexVal, hchk, hovr, after, nm_now, nm_chk]
+        · by_cases h3 : l = 3
+          · subst h3
+            cases dev <;> simp [Logger_check_body, checkSpec, terminal, indexVal, hchk, hovr, after, nm_now, nm_chk]
+          · by_cases hlt : l < 3
+            · have hc := hcond hlt
+              simp [Logger_check_body, checkSpec, terminal, indexVal, hchk, hovr, after, nm_now, nm_chk, h3, h4, h5, hlt, hc, hg]
+            · simp [Logger_check_body, checkSpec, terminal, indexVal, hchk, hovr, after, nm_now, nm_chk, h3, h4, h5, hlt, hg]
+    | some cs =>
+      by_cases h4 : l = 4
+      · subst h4; simp [Logger_check_body, checkSpec, terminal, indexVal, hchk, hovr, after, nm_now, nm_chk, nm_ann]
+      · by_cases h5 : l = 5
+        · subst h5; simp [Logger_check_body, checkSpec, terminal, indexVal, hchk, hovr, after, nm_now, nm_chk, nm_ann]
+        · by_cases h3 : l = 3
+          · subst h3
+            cases dev <;> simp [Logger_check_body, checkSpec, terminal, indexVal, hchk, hovr, after, nm_now, nm_chk, nm_ann]
+          · by_cases hlt : l < 3
+            · have hc := hcond hlt
+              simp [Logger_check_body, checkSpec, terminal, indexVal, hchk, hovr, after, nm_now, nm_chk, nm_ann, h3, h4, h5, hlt, hc, hg]
+            · simp [Logger_check_body, checkSpec, terminal, indexVal, hchk, hovr, after, nm_now, nm_chk, nm_ann, h3, h4, h5, hlt, hg]
+
+/-- the hook `Logger.check` installs is the model's `Logger.terminal` (hook values read as `HookCfg` / `Action`):
+    `panic_always`, `fatal_always`, `dpanic_iff_dev` and the override theorems are about this function -/
+theorem Logger_check_terminal_is_model (lg : Cores.Logger) (l : Int) :
+    terminal l lg.dev (hookV lg.onPanic) (hookV lg.onFatal) = (lg.terminal l).map actV :=
+  terminal_is_model lg l
+
+/-- in particular: at Panic and Fatal level the result of `Logger.check` is never nil and always carries a hook,
+    whatever the core answers and whatever `onPanic` / `onFatal` are set to -/
+theorem Logger_check_panic_fatal_armed (P : Par) (l : Int) (hl : l = 4 ∨ l = 5) (msg name : Bytes) (core clock : Val)
+    (dev : Bool) (onPanic onFatal : List Val) :
+    ∃ h, terminal l dev onPanic onFatal = some h ∧ h ≠ [] ∧ ¬ (Val.beqs h [.int 0] = true) ∧
+      ((P.chk core (.list [.bytes name, P.now clock, .int l, .bytes msg])).isNone →
+        (checkSpec P l msg name core clock dev onPanic onFatal).1 = ceV (some ([], h))) := by
+  have hov : ∀ (d : Int) (o : List Val), d = 2 ∨ d = 3 → ovr [.int d] o ≠ [] ∧ ¬ (Val.beqs (ovr [.int d] o) [.int 0] = true) := by
+    intro d o hd
+    unfold ovr
+    split
+    · rcases hd with rfl | rfl <;> simp
+    · rename_i hne
+      constructor
+      · intro h; apply hne; left; simp [h]
+      · intro h; apply hne; right; exact h
+  rcases hl with rfl | rfl
+  · refine ⟨ovr [.int 2] onPanic, by simp [terminal], (hov 2 _ (Or.inl rfl)).1, (hov 2 _ (Or.inl rfl)).2, ?_⟩
+    intro hn
+    cases hc : P.chk core (.list [.bytes name, P.now clock, .int 4, .bytes msg]) with
+    | none => simp [checkSpec, terminal, hc, after]
+    | some cs => rw [hc] at hn; cases hn
+  · refine ⟨ovr [.int 3] onFatal, by simp [terminal], (hov 3 _ (Or.inr rfl)).1, (hov 3 _ (Or.inr rfl)).2, ?_⟩
+    intro hn
+    cases hc : P.chk core (.list [.bytes name, P.now clock, .int 5, .bytes msg]) with
+    | none => simp [checkSpec, terminal, hc, after]
+    | some cs => rw [hc] at hn; cases hn
 
 end ZapVerif.C06
